@@ -106,6 +106,35 @@ CHECKS['C14'] = dict(
    design_ref='5.14',
    note='Trusted: TLC, CommunityModules, g++. 3 channels and 16 semaphore bits are covered by trace validation, exhaustive at the scaled constants.',
    technique='TLA+ spec + TLC exhaustive model checking + state-graph edge replay + TLC trace validation')
+CHECKS['C06'] = dict(
+   text='The run loop as coded (idle skip through CoreTiming with minimum horizon and additional tick) is compared by TLC with plain '
+        'cycle-by-cycle execution on a design model for every start configuration x every composition of the cycle budget; random guest '
+        'programs run on a real Teakra in one piece, in random slices and single-stepped are all validated against System.tla, whose '
+        'only way to consume Run(n) is n Cycle steps, with the complete observation compared after every slice.',
+   design_ref='5.6',
+   note='Trusted: TLC, CommunityModules, g++, the frozen TLA+ instruction semantics. Audio port and mailbox are not part of the system '
+        'programs yet (their own fast-forward is decided by C16); host events at slice boundaries are limited to the program load.',
+   technique='TLA+ spec + TLC exhaustive model checking of the run-loop design + TLC trace validation with silent cycle steps')
+CHECKS['C07'] = dict(
+   text='All interleavings of trigger/acknowledge/route/mask/enable operations and instruction boundaries are explored by TLC on a model '
+        'built from the same ICU and interrupt-entry operators the trace specifications use, against exactly-once, priority, no-spurious, '
+        'stay-latched and request-bit properties; interrupt-heavy guest programs are single-stepped on a real Teakra and every boundary is '
+        'validated in full.',
+   design_ref='5.7',
+   note='Trusted: TLC, CommunityModules, g++. The model uses 2 IRQ sources x 3 lines (thorough) / 1 source (quick); the IRQ numbers of '
+        'audio port, mailbox and DMA are bound by the C16/C14/C13 traces.',
+   technique='TLA+ spec + TLC model checking over all interleavings + TLC trace validation at instruction-boundary granularity')
+CHECKS['C19'] = dict(
+   text='ApbpConc.tla models host and DSP threads at lock granularity (per-channel mutex, recursive semaphore mutex held across the '
+        'handler, ICU mutex across on_interrupt, atomic interrupt latches, re-entrant callbacks on either thread); TLC explores all '
+        'interleavings for value order, no loss, eventual observation and interrupt delivery (liveness under fairness), deadlock freedom '
+        'and a lockset invariant; two-thread executions of the real code under ThreadSanitizer are recorded per thread and TLC searches '
+        'for an interleaving the model explains; a TSan report or a stuck run has no action and is a violation.',
+   design_ref='5.19',
+   category='model_checking',
+   note='Data-race freedom in the C++ memory-model sense is observed by ThreadSanitizer on the recorded executions, not decided by the '
+        'model; the model decides the locking discipline. One known finding (ICU vector registers) is listed in known_findings.json.',
+   technique='TLA+ spec + TLC model checking of all interleavings (safety + liveness) + TLC interleaving search over recorded two-thread runs')
 NOT_YET = {}
 def main():
     props = [json.loads(l)['id'] for l in open(os.path.join(V, 'properties.jsonl'))]
